@@ -44,6 +44,14 @@ class Trace:
         return l if l and l.startswith("ok ") else None
 
 
+def decode_sent(raws):
+    """canonical lines of messages as sent (None for bytes that are not one valid message)"""
+    if not raws:
+        return []
+    outs = busdiff.script.run_model("".join("wire demarshalx " + r.hex() + "\n" for r in raws))[0]
+    return [o if o.startswith("ok ") else None for o in outs]
+
+
 def _job(args):
     seed, n_ops, gen_kw, policy_rules, limits, extra = args
     try:
@@ -175,6 +183,8 @@ class Tracker:
         gone = set(closed)
         if op[0] == "close":
             gone.add(op[1])
+        if op[0] == "frozen":
+            gone |= {s[1] for s in op[1] if s[0] == "close"}
         actor = op[1] if op[0] == "send" else None
         sent = tr.sent(i) if op[0] == "send" else None
         if sent and actor in self.live and actor not in gone and fld(sent, "t") == "1" and hexname(fld(sent, "dest")) == "org.freedesktop.DBus" \
